@@ -237,7 +237,7 @@ def run_case(case, tier):
                 res["sample"] = {"target": render(t), "hash": h0, "variants": VARIANTS, "edits": [k for k, _ in edits(t, rng)]}
             return res
         if case["mode"] == "proc":
-            prog = G.gen_program(case["seed"], allow_known=False, long_names=0.3)   # many long identifiers: column-aligned outputs
+            prog = G.gen_program(case["seed"], allow_known=False, long_names=0.3, section_names=0.25)   # many long identifiers: column-aligned outputs
             res["sig"] = sig_of(prog["files"])
             res["nontrivial"] = True
             sets = []
